@@ -236,7 +236,7 @@ def h_forms(ctx):
     if via == 'top':
         die = topdie
     else:
-        kids = list(topdie.iter_children())
+        kids = ctx.drain(topdie.iter_children())
         ctx.check_eq('forms/children', len(kids), 1)
         if len(kids) != 1:
             return
@@ -400,9 +400,9 @@ def h_tree(ctx):
         if tu:
             hI, _ = unit_header(4, False, E.little, 8, 0, body_len=1)
             di, _ = mk_dwarfinfo(ctx, E.little, E.addr, debug_info=hI + [0], debug_abbrev=ab, debug_types=sec)
-            return list(di.iter_TUs())[pre_units]
+            return ctx.drain(di.iter_TUs())[pre_units]
         di, _ = mk_dwarfinfo(ctx, E.little, E.addr, debug_info=sec, debug_abbrev=ab)
-        return list(di.iter_CUs())[pre_units]
+        return ctx.drain(di.iter_CUs())[pre_units]
     cu = fresh()
     mode = cfg.get('mode', 'iter')
     want = [dict(off=top_off, size=1, code=1, children=bool(forest), null=False, depth=0, parent=None, val=None)] + flat
@@ -425,7 +425,7 @@ def h_tree(ctx):
             else:
                 wp = w['parent']['off'] if w['parent'] is not None else top_off
                 ctx.check_eq('tree/%s/parent-first%s' % (sib, '/null' if w['null'] else ''), p.offset if p is not None else None, wp)
-    dies = list(cu.iter_DIEs())
+    dies = ctx.drain(cu.iter_DIEs())
     ctx.check_eq('tree/%s/count' % sib, len(dies), len(want))
     if len(dies) != len(want):
         return
@@ -501,7 +501,7 @@ def h_refs(ctx):
     hB, _ = unit_header(4, False, E.little, 8, 0, 'compile', body_len=4)
     sec = hA + [1, 2, v[0], 3] + rb + [2, v[1], 0] + hB + [1, 2, v[2], 0]
     di, _ = mk_dwarfinfo(ctx, E.little, E.addr, debug_info=sec, debug_abbrev=ab)
-    cus = list(di.iter_CUs()) if cfg.get('warm') else None
+    cus = ctx.drain(di.iter_CUs()) if cfg.get('warm') else None
     cuA = di.get_CU_at(offA)
     R = cuA.get_DIE_from_refaddr(r)
     T = R.get_DIE_from_attribute('DW_AT_type')
@@ -536,7 +536,7 @@ def h_ref_sig8(ctx):
     k = ctx.concretize(which)
     ctx.check_eq('ref_sig8/value', T.attributes['DW_AT_const_value'].value, vals[k])
     ctx.check_eq('ref_sig8/raw', R.attributes['DW_AT_type'].raw_value, want_sig)
-    tus = list(di.iter_TUs())
+    tus = ctx.drain(di.iter_TUs())
     ctx.check_eq('ref_sig8/tu-count', len(tus), 2)
     ctx.check_eq('ref_sig8/tu-signatures', [t['signature'] for t in tus], sigs)
 
